@@ -105,6 +105,8 @@ class FakeSocket(object):
     def close(self):
         self.closed = True
         self.established = False
+        if self.blocking_rx is not None:
+            self.blocking_rx.put(OSError(errno.EBADF, "Bad file descriptor"))      # a reader blocked in recv() wakes up
 
 
 class FakeSocketModule(object):
